@@ -91,6 +91,9 @@ deriving DecidableEq, Repr
 /-- Go `strings.TrimSpace(s) == ""` (ASCII) -/
 def isBlank (s : String) : Bool := s.toList.all Char.isWhitespace
 
+/-- Go `strings.HasPrefix(s, p)` -/
+def hasPrefix (p s : String) : Bool := p.toList.isPrefixOf s.toList
+
 def icaVersion := "ics27-1"
 def hostPort := "icahost"
 def ctrlPrefix := "icacontroller-"
@@ -113,7 +116,7 @@ structure Chan where
   port : String          -- own port
   conn : String          -- own connection (connectionHops[0])
   cpPort : String
-  cpChan : String        -- "" until known
+  cpChan : Option Nat    -- counterparty channel, once known
   state : ChState
   order : Order
   md : Option Metadata   -- parsed version string (none = not ICS-27 metadata)
@@ -122,8 +125,8 @@ deriving DecidableEq, Repr
 abbrev Key := String × String      -- (connection, controller port)
 
 structure Side where
-  chans : List (String × Chan)
-  active : List (Key × String)
+  chans : List (Nat × Chan)         -- channel number n is `c<n>` on the controller, `h<n>` on the host
+  active : List (Key × Nat)
   addr : List (Key × String)
   next : Nat
   enabled : Bool                    -- ControllerEnabled / HostEnabled
@@ -137,14 +140,12 @@ structure World where
   genAddr : String → String → String -- icatypes.GenerateAddress (host connection, controller port)
   taken : List String               -- addresses on the host that already hold a non-ICA account
 
-/-- channel identifiers: first-appearance names per chain (`c0, c1 …` on the controller, `h0 …` on the host) -/
-def cName (n : Nat) : String := "c" ++ toString n
-def hName (n : Nat) : String := "h" ++ toString n
 
-def Side.chan (s : Side) (id : String) : Option Chan := KV.get s.chans id
+
+def Side.chan (s : Side) (id : Nat) : Option Chan := KV.get s.chans id
 
 /-- `GetOpenActiveChannel` -/
-def Side.openActive (s : Side) (k : Key) (port : String) : Option String :=
+def Side.openActive (s : Side) (k : Key) (port : String) : Option Nat :=
   match KV.get s.active k with
   | none => none
   | some id =>
@@ -156,7 +157,7 @@ inductive Err
   | disabled | invalidControllerPort | invalidHostPort | connectionNotFound | invalidVersion | invalidCodec
   | unknownDataType | invalidConnection | invalidAddress | activeAlreadySet | invalidOrdering
   | invalidChannelFlow | channelNotFound | activeNotFound | invalidTimeout | accountExists
-  | invalidReopening | invalidRequest | coreState
+  | invalidReopening | invalidRequest | invalidType | coreState
 deriving DecidableEq, Repr
 
 /-- `ValidateControllerMetadata` / `ValidateHostMetadata` (same checks; the address is validated when
@@ -173,52 +174,64 @@ def validateMeta (w : World) (m : Metadata) (ctrlConn hostConn : String) : Optio
 def defaultMeta (ctrlConn hostConn : String) : Metadata :=
   ⟨icaVersion, ctrlConn, hostConn, "", "proto3", "sdk_multi_msg"⟩
 
+/-- the part of controller `OnChanOpenInit` that looks at an existing active channel of the key: it must
+    be CLOSED, have the same ordering and the same metadata (`IsPreviousMetadataEqual`) -/
+def reopenCheck (w : World) (order : Order) (conn port : String) (m : Metadata) : Option Err :=
+  match KV.get w.ctrl.active (conn, port) with
+  | none => none
+  | some aid =>
+    match w.ctrl.chan aid with
+    | none => some .coreState          -- panic in the code: mapping without channel
+    | some c =>
+      if c.state != .closed then some .activeAlreadySet
+      else if c.order != order then some .invalidOrdering
+      else match c.md with
+        | some pm => if pm.sameButAddress m then none else some .invalidVersion
+        | none => some .invalidVersion
+
+/-- the metadata `OnChanOpenInit` works with: default metadata for a blank version string, else the parsed one -/
+def initMeta (version : Option (Option Metadata)) (conn hconn : String) : Except Err Metadata :=
+  match version with
+  | none => .ok (defaultMeta conn hconn)
+  | some none => .error .invalidType     -- MetadataFromVersion: ibcerrors.ErrInvalidType
+  | some (some m) => .ok m
+
 /-- controller `OnChanOpenInit` (middleware + keeper).  `version`: `none` = blank version string,
     `some none` = a string that is not ICS-27 metadata, `some (some m)` = parsed metadata. -/
 def ctrlOnInit (w : World) (order : Order) (conn port cpPort : String) (version : Option (Option Metadata)) :
     Except Err Metadata :=
-  if !w.ctrl.enabled then .error .disabled
-  else if !port.startsWith ctrlPrefix then .error .invalidControllerPort
+  -- the port router only hands ports with the `icacontroller` prefix to this module
+  if !hasPrefix "icacontroller" port then .error .coreState
+  else if !w.ctrl.enabled then .error .disabled
+  else if !hasPrefix ctrlPrefix port then .error .invalidControllerPort
   else if cpPort != hostPort then .error .invalidHostPort
   else
     match KV.get w.peer conn with
     | none => .error .connectionNotFound           -- (for a blank version GetConnection fails first; same class)
     | some hconn =>
-      let m? : Except Err Metadata := match version with
-        | none => .ok (defaultMeta conn hconn)
-        | some none => .error .invalidVersion
-        | some (some m) => .ok m
-      match m? with
+      match initMeta version conn hconn with
       | .error e => .error e
       | .ok m =>
         match validateMeta w m conn hconn with
         | some e => .error e
         | none =>
-          match KV.get w.ctrl.active (conn, port) with
+          match reopenCheck w order conn port m with
+          | some e => .error e
           | none => .ok m
-          | some aid =>
-            match w.ctrl.chan aid with
-            | none => .error .coreState          -- panic in the code: mapping without channel
-            | some c =>
-              if c.state != .closed then .error .activeAlreadySet
-              else if c.order != order then .error .invalidOrdering
-              else match c.md with
-                | some pm => if pm.sameButAddress m then .ok m else .error .invalidVersion
-                | none => .error .invalidVersion
 
 /-- core `ChanOpenInit` on the controller with the ICA callback -/
 def ctrlInit (w : World) (order : Order) (conn port cpPort : String) (version : Option (Option Metadata)) :
-    World × Except Err String :=
+    World × Except Err Nat :=
   match ctrlOnInit w order conn port cpPort version with
   | .error e => (w, .error e)
   | .ok m =>
-    let id := cName w.ctrl.next
-    let c : Chan := ⟨port, conn, cpPort, "", .init, order, some m⟩
+    let id := w.ctrl.next
+    let c : Chan := ⟨port, conn, cpPort, none, .init, order, some m⟩
     ({ w with ctrl := { w.ctrl with chans := KV.set w.ctrl.chans id c, next := w.ctrl.next + 1 } }, .ok id)
 
 /-- `MsgRegisterInterchainAccount` (msg server) → `registerInterchainAccount` → core ChanOpenInit -/
 def register (w : World) (owner conn : String) (version : Option (Option Metadata)) (order : Order) :
-    World × Except Err String :=
+    World × Except Err Nat :=
   if isBlank owner then (w, .error .invalidAddress)
   else
     let port := ctrlPrefix ++ owner
@@ -227,14 +240,17 @@ def register (w : World) (owner conn : String) (version : Option (Option Metadat
     | none => ctrlInit w order conn port hostPort version
 
 /-- host `OnChanOpenTry` run by core's ChanOpenTry for the controller channel `cid` -/
-def hostTry (w : World) (cid : String) : World × Except Err String :=
+def hostTry (w : World) (cid : Nat) : World × Except Err Nat :=
   match w.ctrl.chan cid with
   | none => (w, .error .coreState)
   | some cc =>
     match KV.get w.peer cc.conn with
     | none => (w, .error .coreState)
     | some hconn =>
-      if !w.host.enabled then (w, .error .disabled)
+      -- core: proof that the controller end is in INIT (relayers prove against the latest state here;
+      -- a stale proof could still create a TRYOPEN end later, which can never be acknowledged)
+      if cc.state != .init then (w, .error .coreState)
+      else if !w.host.enabled then (w, .error .disabled)
       else if cc.cpPort != hostPort then (w, .error .invalidHostPort)
       else
         -- counterparty version = the controller end's version; unparsable → default metadata
@@ -263,20 +279,20 @@ def hostTry (w : World) (cid : String) : World × Except Err String :=
             match acct with
             | .error e => (w, .error e)
             | .ok (a, addr') =>
-              let id := hName w.host.next
-              let c : Chan := ⟨hostPort, hconn, cc.port, cid, .tryopen, cc.order, some { m with address := a }⟩
+              let id := w.host.next
+              let c : Chan := ⟨hostPort, hconn, cc.port, some cid, .tryopen, cc.order, some { m with address := a }⟩
               ({ w with host := { w.host with chans := KV.set w.host.chans id c, addr := addr', next := w.host.next + 1 } },
                .ok id)
 
 /-- controller `OnChanOpenAck` for controller channel `cid` acknowledging host channel `hid` -/
-def ctrlAck (w : World) (cid hid : String) : World × Except Err Unit :=
+def ctrlAck (w : World) (cid hid : Nat) : World × Except Err Unit :=
   match w.ctrl.chan cid, w.host.chan hid with
   | some cc, some hc =>
     -- what core checks: our end is INIT, the host end exists for this very channel
-    if cc.state != .init || hc.cpChan != cid || hc.cpPort != cc.port then (w, .error .coreState)
+    if cc.state != .init || hc.state != .tryopen || hc.cpChan != some cid || hc.cpPort != cc.port then (w, .error .coreState)
     else if !w.ctrl.enabled then (w, .error .disabled)
     else if cc.port == hostPort then (w, .error .invalidControllerPort)
-    else if !cc.port.startsWith ctrlPrefix then (w, .error .invalidControllerPort)
+    else if !hasPrefix ctrlPrefix cc.port then (w, .error .invalidControllerPort)
     else match hc.md with
       | none => (w, .error .invalidVersion)
       | some m =>
@@ -292,7 +308,7 @@ def ctrlAck (w : World) (cid hid : String) : World × Except Err Unit :=
               if isBlank m.address then (w, .error .invalidAddress)
               else
                 let k : Key := (m.ctrlConn, cc.port)
-                let c' : Chan := { cc with state := .opened, cpChan := hid, md := some m }
+                let c' : Chan := { cc with state := .opened, cpChan := some hid, md := some m }
                 ({ w with ctrl := { w.ctrl with
                     chans := KV.set w.ctrl.chans cid c',
                     active := KV.set w.ctrl.active k cid,
@@ -300,15 +316,15 @@ def ctrlAck (w : World) (cid hid : String) : World × Except Err Unit :=
   | _, _ => (w, .error .coreState)
 
 /-- host `OnChanOpenConfirm` for host channel `hid` -/
-def hostConfirm (w : World) (hid : String) : World × Except Err Unit :=
+def hostConfirm (w : World) (hid : Nat) : World × Except Err Unit :=
   match w.host.chan hid with
   | none => (w, .error .coreState)
   | some hc =>
-    match w.ctrl.chan hc.cpChan with
+    match hc.cpChan.bind w.ctrl.chan with
     | none => (w, .error .coreState)
     | some cc =>
       -- core: our end TRYOPEN, the controller end reached OPEN towards us
-      if hc.state != .tryopen || cc.cpChan != hid || (cc.state != .opened && cc.state != .closed) then (w, .error .coreState)
+      if hc.state != .tryopen || cc.cpChan != some hid || cc.state != .opened then (w, .error .coreState)
       else if !w.host.enabled then (w, .error .disabled)
       else
         let c' : Chan := { hc with state := .opened }
@@ -316,7 +332,7 @@ def hostConfirm (w : World) (hid : String) : World × Except Err Unit :=
                                         active := KV.set w.host.active (hc.conn, hc.cpPort) hid } }, .ok ())
 
 /-- core closes an ORDERED controller channel whose packet timed out -/
-def ctrlTimeoutClose (w : World) (cid : String) : World × Except Err Unit :=
+def ctrlTimeoutClose (w : World) (cid : Nat) : World × Except Err Unit :=
   match w.ctrl.chan cid with
   | some cc =>
     if cc.state == .opened && cc.order == .ordered then
@@ -325,10 +341,10 @@ def ctrlTimeoutClose (w : World) (cid : String) : World × Except Err Unit :=
   | none => (w, .error .coreState)
 
 /-- `ChanCloseConfirm` on the host once the controller end is CLOSED (callback returns nil) -/
-def hostCloseConfirm (w : World) (hid : String) : World × Except Err Unit :=
+def hostCloseConfirm (w : World) (hid : Nat) : World × Except Err Unit :=
   match w.host.chan hid with
   | some hc =>
-    match w.ctrl.chan hc.cpChan with
+    match hc.cpChan.bind w.ctrl.chan with
     | some cc =>
       if hc.state == .opened && cc.state == .closed then
         ({ w with host := { w.host with chans := KV.set w.host.chans hid { hc with state := .closed } } }, .ok ())
@@ -339,7 +355,7 @@ def hostCloseConfirm (w : World) (hid : String) : World × Except Err Unit :=
 /-- `MsgSendTx`: the message's only signer is `msg.Owner` (proto annotation `cosmos.msg.v1.signer`), so
     `signer` is carried separately only to state that the SDK refuses `signer ≠ owner`.
     Returns the (port, channel) the packet is sent on. -/
-def sendTx (w : World) (signer owner conn : String) (timeoutOk dataOk : Bool) : Except Err (String × String) :=
+def sendTx (w : World) (signer owner conn : String) (timeoutOk dataOk : Bool) : Except Err (String × Nat) :=
   if signer != owner then .error .invalidRequest          -- SDK signature verification (outside ibc-go)
   else if isBlank owner then .error .invalidAddress
   else if !w.ctrl.enabled then .error .disabled
@@ -355,11 +371,11 @@ def sendTx (w : World) (signer owner conn : String) (timeoutOk dataOk : Bool) : 
 inductive Op
   | register (owner conn : String) (version : Option (Option Metadata)) (order : Order)
   | init (order : Order) (conn port cpPort : String) (version : Option (Option Metadata))   -- anybody's MsgChannelOpenInit
-  | hostTry (cid : String)
-  | ctrlAck (cid hid : String)
-  | hostConfirm (hid : String)
-  | timeoutClose (cid : String)
-  | hostCloseConfirm (hid : String)
+  | hostTry (cid : Nat)
+  | ctrlAck (cid hid : Nat)
+  | hostConfirm (hid : Nat)
+  | timeoutClose (cid : Nat)
+  | hostCloseConfirm (hid : Nat)
   | hostInit          -- MsgChannelOpenInit on the icahost port: always refused
   | ctrlTry           -- MsgChannelOpenTry on a controller port: always refused
   | closeInit         -- MsgChannelCloseInit on either side: always refused
